@@ -40,6 +40,10 @@ def run_variant(pid, path, expect):
     try:
         c = sh("python3 %s/run.py %s --tier quick" % (HERE, pid), cwd=VERIF)
         out = c.stdout
+        if "SILENT" in expect:
+            # behaviour-preserving edit: the check must stay silent
+            return ("CAUGHT" if c.returncode == 0 else "FALSE-ALARM(exit %d)" % c.returncode,
+                    "silent on a behaviour-preserving edit" if c.returncode == 0 else out[-300:])
         if c.returncode == 2:
             return "BROKEN(exit 2)", "\n".join(l for l in out.splitlines() if "BROKEN" in l)[:400]
         if c.returncode == 0:
